@@ -15,7 +15,7 @@ import env
 import gen
 import refavro
 import sched
-from streams import SimPipe, ReadOnlySeq, WriteOnlySink
+from streams import SimPipe, ReadOnlySeq, WriteOnlySink, buffered_seq
 from runner import Violation, jsonable
 from props import common
 
@@ -44,7 +44,7 @@ COMPONENTS = {
     "stub": ["SimPipe (bounded byte queue, cooperative blocking)", "scheduler", "WriteOnlySink", "ReadOnlySeq"],
     "oracle": ["byte accounting at the seam (bytes written per call vs bytes consumed per read)", "refavro.normal_eq"],
 }
-PROBES = ["mode_streaming", "mode_pingpong", "mode_sequential", "capacity_1", "capacity_unbounded",
+PROBES = ["input_buffered_reader", "route_writer_option", "route_reader_option", "mode_streaming", "mode_pingpong", "mode_sequential", "capacity_1", "capacity_unbounded",
           "close_at_boundary", "parsed_shared_schema", "zero_length_value", "omitted_default",
           "hint_tuple", "hint_dash_type", "float_special", "collection_ge64", "record_depth_ge3",
           "string_multibyte", "int_extreme", "array_as_tuple", "profile_huge", "profile_deep", "string_huge",
@@ -135,12 +135,27 @@ def run_one(ch, ctx):
     schema, gstats = gen.schema(ch, max_depth=3, max_fields=4)
     node = refavro.resolve(schema)
     mode = ch.weighted([4, 3, 3])
+    wopts, ropts = {}, {}
     if mode == 0:
         # swarm: size / depth profile per run
         huge = ch.chance(8)
         deep = ch.chance(8)
         exotic = ch.chance(12)
-        dg = gen.DataGen(ch, hints=True, tuples=True, max_len=3, huge=huge, deep=deep, exotic=exotic)
+        # less common routes to the same functionality: writer / reader options that must not change
+        # what a conforming datum round-trips to
+        variant = ch.weighted([70, 6, 6, 6, 12])
+        if variant == 1:
+            wopts = {"strict": True}                    # every field present, no extra keys
+        elif variant == 2:
+            wopts = {"strict_allow_default": True}      # defaulted fields may be omitted, no extra keys
+        elif variant == 3:
+            wopts = {"disable_tuple_notation": True}
+        elif variant == 4:
+            ropts = ch.pick(READ_OPTS)                  # named union branches come back as (name, value)
+        if variant:
+            ctx.probe("route_writer_option" if wopts else "route_reader_option")
+        dg = gen.DataGen(ch, hints=(variant in (0, 4)), tuples=(variant != 3), omit_defaults=(variant != 1), max_len=3,
+                         huge=huge, deep=deep, exotic=exotic and not wopts)
         if exotic:
             ctx.probe("profile_exotic_types")
         if huge:
@@ -159,8 +174,10 @@ def run_one(ch, ctx):
     if shared:
         ctx.probe("parsed_shared_schema")
     desc = {"schema": schema, "values": jsonable(values), "parsed": shared}
+    if wopts or ropts:
+        desc["writer_options"], desc["reader_options"] = wopts, ropts
     if mode == 0:
-        return sequential(F, ch, ctx, S, node, values, desc)
+        return sequential(F, ch, ctx, S, node, values, desc, wopts, ropts)
     return piped(F, ch, ctx, S, node, values, desc, pingpong=(mode == 2))
 
 
@@ -170,31 +187,47 @@ def _check_values(node, values, got, desc, extra):
             raise Violation("roundtrip", "value-differs", detail=dict(extra, index=i, written=jsonable(d), read=jsonable(v)), scenario=desc)
 
 
-def sequential(F, ch, ctx, S, node, values, desc):
+READ_OPTS = [{"return_record_name": True}, {"return_record_name": True, "return_record_name_override": True},
+             {"return_named_type": True}, {"return_named_type": True, "return_named_type_override": True}]
+
+
+def sequential(F, ch, ctx, S, node, values, desc, wopts={}, ropts={}):
     ctx.probe("mode_sequential")
     sink = WriteOnlySink()
     bounds = []
     for d in values:
         try:
-            F.schemaless_writer(sink, S, d)
+            F.schemaless_writer(sink, S, d, **wopts)
         except Exception as e:  # noqa
             raise Violation("roundtrip", "conforming-datum-rejected", detail={"datum": jsonable(d), "exc": jsonable(e)}, scenario=desc)
         bounds.append(len(sink.getvalue()))
-    if sink.forbidden or set(sink.ops()) - {"write", "flush"}:
+    if set(sink.ops()) - {"write", "flush", "seekable"}:
         raise Violation("stream-calls", "writer-used-other-calls", detail={"ops": sink.ops(), "forbidden": sink.forbidden}, scenario=desc)
     data = sink.getvalue()
-    src = ReadOnlySeq(data)
+    bufsize = None
+    if ch.chance(30):
+        # a real io.BufferedReader with a tiny buffer (what open(path, "rb") gives, boundary every few bytes)
+        bufsize = ch.pick([1, 2, 3, 5, 8, 13, 64])
+        ctx.probe("input_buffered_reader")
+        src = buffered_seq(data, bufsize)
+        desc = dict(desc, input="io.BufferedReader(buffer_size=%d)" % bufsize)
+    else:
+        src = ReadOnlySeq(data)
     got = []
     for i in range(len(values)):
         try:
-            got.append(F.schemaless_reader(src, S))
+            v = F.schemaless_reader(src, S, **ropts)
+            # with return_record_name / return_named_type the named branches of unions come back in the
+            # (name, value) notation the writer accepts as a hint: strip it like any other hint
+            got.append(common.strip_hints(v, node) if ropts else v)
         except Exception as e:  # noqa
             raise Violation("roundtrip", "read-back-raises", detail={"index": i, "exc": jsonable(e), "bytes": data.hex()[:400]}, scenario=desc)
-        if src.consumed != bounds[i]:
+        consumed = src.tell() if bufsize else src.consumed
+        if consumed != bounds[i]:
             raise Violation("exact-consumption", "consumed-differs-from-written",
-                            detail={"index": i, "consumed": src.consumed, "written_boundary": bounds[i], "mode": "sequential"}, scenario=desc)
-    if src.forbidden:
-        raise Violation("stream-calls", "reader-used-other-calls", detail={"forbidden": src.forbidden}, scenario=desc)
+                            detail={"index": i, "consumed": consumed, "written_boundary": bounds[i], "mode": "sequential"}, scenario=desc)
+    for name in getattr(src, "forbidden", ()):
+        ctx.stat("probed_" + name)   # probing for an optional method is not a call: the stream refused it and reading went on
     _check_values(node, values, got, desc, {"mode": "sequential"})
     if any(b == a for a, b in zip([0] + bounds, bounds)):
         ctx.probe("zero_length_value")
@@ -271,9 +304,9 @@ def piped(F, ch, ctx, S, node, values, desc, pingpong):
                         detail=dict(info, consumed_after_each_read=state["r_bounds"], written_after_each_write=state["w_bounds"]), scenario=desc)
     if pipe.buf:
         raise Violation("exact-consumption", "bytes-left-in-pipe", detail=dict(info, left=len(pipe.buf)), scenario=desc)
-    if pipe.r.forbidden or set(pipe.r.ops()) - {"read"}:
+    if set(pipe.r.ops()) - {"read"}:
         raise Violation("stream-calls", "reader-used-other-calls", detail=dict(info, ops=pipe.r.ops(), forbidden=pipe.r.forbidden), scenario=desc)
-    if pipe.w.forbidden or set(pipe.w.ops()) - {"write", "flush", "close"}:
+    if set(pipe.w.ops()) - {"write", "flush", "close"}:
         raise Violation("stream-calls", "writer-used-other-calls", detail=dict(info, ops=pipe.w.ops(), forbidden=pipe.w.forbidden), scenario=desc)
     _check_values(node, values, state["got"], desc, info)
     if close_probe:
